@@ -33,9 +33,11 @@ static void h_run_case(hcase_t* c) {
    * so that this harness also builds against a tree with the fix reverted. */
   mpsc_fifo_t* const w = (mpsc_fifo_t*)&bar.waiters;
   const int nlists = (int)(sizeof bar.waiters / sizeof(mpsc_fifo_t));
-  bar.count = (uint32_t)count;
-  bar.counter = c->nparams > 3 ? (uint64_t)c->params[3] : 0;   /* a whole number of completed rounds */
+  memset(&bar, 0x5a, sizeof bar);
+  fiber_barrier_init(&bar, (uint32_t)count);   /* the real init sets every field (also derived ones a change adds) */
+  if (c->nparams > 3 && c->params[3]) bar.counter = (uint64_t)c->params[3];   /* a whole number of completed rounds */
   for (int q = 0; q < nlists; q++) {
+    free(w[q].head);
     w[q].head = &nodes[q]; w[q].tail = &nodes[q];
     rt_reg((void*)&w[q].head, 8, 301 + 10 * q, 8);
     rt_reg((void*)&w[q].tail, 8, 302 + 10 * q, 8);
